@@ -588,7 +588,8 @@ def check_full(rng, rec):
     core = f"{vol} {rep} {page}"
     parallel = rng.random() < 0.25
     pc = gen.pinshape(rng, page) if rng.random() < 0.5 else None
-    year = rng.randint(1700, gen.YEARNOW) if rng.random() < 0.8 else None
+    year = (rng.choice([1600, 1601, gen.YEARNOW, gen.YEARNOW + 1]) if rng.random() < 0.1 else rng.randint(1700, gen.YEARNOW)) \
+        if rng.random() < 0.8 else None      # the accepted range is 1600 .. next year, both included
     court = rng.choice(gen.DB.courts) if (year and rng.random() < 0.5) else None
     par = gen.paren(rng) if (year and rng.random() < 0.4) else None
     lead = rng.choice(["", "See ", "In ", "The rule of ", "As held in ", "But see ", "Cf. "])
